@@ -474,6 +474,26 @@ example : (match scaleR ⟨[-1, 0], [3, 8], ["x", "y"], ["m", "m"], 1/1000000000
     | .ok (_, t) => decide (t.lo 0 = 391 ∧ t.hi 0 = 403 ∧ t.lo 1 = -7/2 ∧ t.hi 1 = 1/2)
     | .error _ => false) = true := by decide +kernel
 
+/-- **any history of translations keeps dimension and every edge length**: rejected steps are skipped,
+in-place and copying steps mixed freely -/
+theorem translations_keep_edges (r : Region) (hr : r.Inv) (ops : List Op)
+    (hall : ∀ op ∈ ops, ∃ v b, op = .translate v b) (a : Nat) (ha : a < r.ndim) :
+    (runR r ops).ndim = r.ndim ∧ (runR r ops).edge a = r.edge a := by
+  induction ops generalizing r with
+  | nil => exact ⟨rfl, rfl⟩
+  | cons op ops ih =>
+    obtain ⟨v, b, rfl⟩ := hall _ (List.mem_cons_self)
+    have hall' : ∀ op ∈ ops, ∃ v b, op = .translate v b := fun o ho => hall o (List.mem_cons_of_mem _ ho)
+    unfold runR
+    cases hstep : stepR r (.translate v b) with
+    | error e => exact ih r hr hall' ha
+    | ok p =>
+      obtain ⟨recv, ret⟩ := p
+      have hnd := stepR_ndim r hr _ recv ret hstep
+      have he := translate_keeps_edges r hr v b recv ret (by simpa [stepR] using hstep) a ha
+      obtain ⟨h1, h2⟩ := ih ret hnd.1 hall' (by rw [hnd.2.1]; exact ha)
+      exact ⟨h1.trans hnd.2.1, h2.trans he⟩
+
 /-- a zero factor on any axis is rejected by both forms -/
 theorem zero_factor_rejected (r : Region) (f : Factor) (ref : Option (List Rat)) (a : Nat) (ha : a < r.ndim)
     (hz : f.at a = 0) : (∃ e, scaleR r f ref true = .error e) ∧ (∃ e, scaleR r f ref false = .error e) := by
